@@ -276,6 +276,15 @@ def shape_programs(dev):
          "dw": M([[(0, 0), (0, 5)], [(1, 0), (1, 5)], [(2, 0), (2, 5)]]), "vols": M([[1, 4], [2, 5], [3, 6]]), "label": "2d transfer", "wash": 1},
         {"op": "add", "lw": P, "wells": L([(0, 0), (0, 0), (0, 0)]), "vols": L([1, 2, 3]), "label": "thrice"},
     ])
+    # 2-D well tables whose corners are those of a block but whose interior is permuted or repeated (fancy indexing)
+    perm = [[(r, c) for c in (0, 2, 1, 3)] for r in range(4)]
+    rept = [[(r, c) for c in (0, 1, 1, 3)] for r in range(3)]
+    prog("fancy-tables", [
+        {"op": "add", "lw": P, "wells": M(perm), "vols": M([[1, 2, 3, 4], [5, 6, 7, 8], [9, 10, 11, 12], [13, 14, 15, 16]]), "label": "columns 1 3 2 4"},
+        {"op": "remove", "lw": P, "wells": M(rept), "vols": M([[1, 2, 3, 4], [1, 2, 3, 4], [1, 2, 3, 4]]), "label": "column 2 twice"},
+        {"op": "add", "lw": P, "wells": M([[(3, 0), (0, 5)], [(0, 0), (3, 5)]]), "vols": M([[1, 2], [3, 4]]), "label": "the four corners, crossed"},
+        {"op": "dispense", "lw": P, "wells": M(perm), "vols": M([[1, 2, 3, 4]] * 4), "label": "through the worklist"},
+    ])
     prog("broadcast", [
         {"op": "transfer", "src": T, "sw": L([(3, 1)]), "dst": P, "dw": L([(0, 0)]), "vols": L([10, 20, 15]), "label": "one source, one destination, three volumes", "wash": 1},
         {"op": "transfer", "src": T, "sw": S((3, 1)), "dst": P, "dw": S((1, 0)), "vols": L([1, 2]), "label": "scalars and two volumes", "wash": "reuse"},
